@@ -986,6 +986,13 @@ func bufferProgram(k *engine.Case, in *input) []step {
 		}
 		prog = append(prog, st)
 		if !res.ok {
+			// a refused over-limit string is an answer, not the end of the stream: both readers
+			// have consumed the length prefix and go on with what follows
+			if res.err == bytex.ErrSizeLimit && op.k == oLimStr {
+				k.Count("st_reads_after_size_limit_error", 1)
+				off += used
+				continue
+			}
 			break
 		}
 		off += used
@@ -1066,6 +1073,9 @@ func streamRun(k *engine.Case, in *input, prog []step, mode int) bool {
 		}
 		if !res.ok {
 			k.Count("st_both_fail", 1)
+			if s.res.err == bytex.ErrSizeLimit && s.op.k == oLimStr && i+1 < len(prog) {
+				continue // the program goes on after a refused over-limit string
+			}
 			return true
 		}
 		if !sameValue(s.op.k, s.res.u, s.res.b, res) {
